@@ -1,3 +1,4 @@
+import Vinegar.Lemmas.TftpForeign
 import Driver.Json
 import Vinegar.Spec.Tftp
 /-
@@ -101,6 +102,19 @@ def transferFields (cfg : Cfg) (na : Bool) (opts : Opts) (h : HandlerResult) (sc
     let itr ← a.toList.mapM obsFromJson
     fields := fields ++ [("checks_impl", checksJson cfg na h neg itr)]
   | _ => pure ()
+  -- C09, non-interference on the implementation: the same transfer was also run on the script without its
+  -- foreign datagrams; by `C09.foreign_noninterference` the client's views of the two runs coincide
+  match j.getObjVal? "twin_script", j.getObjVal? "twin_trace", j.getObjVal? "impl_trace" with
+  | .ok (Json.arr ts), .ok (Json.arr tt), .ok (Json.arr it) =>
+    let twinScript ← ts.toList.mapM evFromJson
+    let twinTrace ← tt.toList.mapM obsFromJson
+    let itr ← it.toList.mapM obsFromJson
+    let applicable := foreignOK script && dropForeign script == twinScript
+    fields := fields ++ [("twin", Json.mkObj [
+      ("applicable", jBool applicable),
+      ("impl_view_equal", jBool (clientView itr == clientView twinTrace)),
+      ("model_view_equal", jBool (clientView tr == runTransfer cfg rrq h (dropForeign script)))])]
+  | _, _, _ => pure ()
   return fields
 
 def transfer : Op := fun j => do
